@@ -259,7 +259,7 @@ def check_reincarnate(ctx):
             after = [e for e in lg[cut:] if e[0] == 30]
             ctx.require(q, z3.And(z3.BoolVal(len(after) == 1), bv(after[0][1]) == 1) if after else z3.BoolVal(False),
                         "after destroy + create with another library the name reaches the new library's function, not a cached address of the old one")
-            ctx.require(q, q.ret == 0x308, "the function address handed out after re-creation is the new library's")
+            ctx.require(q, q.ret == 0x308, "the function address handed out after re-creation is the new library's", judge=lambda no, m: no["ret"] == 0x308)
         else:
             ctx.fail(q, "re-created sandbox could not invoke (%s: %s)" % (q.status, q.info))
     ctx.expect(paths, ret=2)
@@ -276,7 +276,7 @@ def check_fnaddr(ctx):
     for q in paths:
         if q.status == "ret":
             ctx.require(q, q.ret == h, "the address of a sandbox function is the backend's function-pointer representation of that function, before or after an invocation",
-                        known=[("C11-shared-symbol-cache", inv == 1)])
+                        known=[("C11-shared-symbol-cache", inv == 1)], judge=lambda no, m: no["ret"] == mval(m, h))
             g = logs(q, 30, 30)
             ctx.require(q, z3.And(z3.BoolVal(len(g) == 1), bv(g[0][1]) == zext(inst, 64)) if g else z3.BoolVal(False),
                         "the invocation reaches the function of this instance's library, whether or not its address was taken first",
